@@ -1,0 +1,36 @@
+//go:build verif
+
+// Machine-checked contracts for package meta_leaseset (comment-only file; never
+// compiled into the library).  Read by /verif/engine (gvc).
+//
+// Composite: helpers of this package are unfolded, component calls go through
+// the components' contracts.  The entry loop (<= 16 entries) is unrolled
+// completely in the thorough tier and up to 1 iteration (bounded) in the quick tier.
+
+package meta_leaseset
+
+//@ import "time"
+//@ import "github.com/go-i2p/common/destination"
+//@ import "github.com/go-i2p/common/key_certificate"
+
+//@ loop parseEntries 0: unroll 16
+//@ loop MetaLeaseSet.Bytes 0: concrete 16
+//@ loop MetaLeaseSet.FindEntriesByType 0: concrete 16
+
+// C09: the Destination inside an accepted MetaLeaseSet obeys the key-type policy.
+//@ lemma C09_ReadMetaLeaseSet(data []byte) {
+//@   mls, _, err := ReadMetaLeaseSet(data)
+//@   if err == nil {
+//@     d := mls.Destination()
+//@     assert(d.KeysAndCert != nil)
+//@     assert(destination.PermittedDest(key_certificate.SigType(d.KeysAndCert.KeyCertificate), key_certificate.CryptoType(d.KeysAndCert.KeyCertificate)))
+//@   }
+//@ }
+
+// C15: published + expires is exact.
+//@ lemma C15_MetaExpirationTime(data []byte) {
+//@   mls, _, err := ReadMetaLeaseSet(data)
+//@   if err == nil {
+//@     assert(mls.ExpirationTime().Equal(time.Unix(int64(mls.Published()), 0).Add(time.Duration(mls.Expires()) * time.Second)))
+//@   }
+//@ }
